@@ -1009,6 +1009,10 @@ class Interp:
             return {self.eval(k, env): self.eval(v, env) for k, v in zip(e.keys, e.values)}
         if isinstance(e, (ast.ListComp, ast.SetComp, ast.GeneratorExp, ast.DictComp)):
             return self.comprehension(e, env)
+        if isinstance(e, ast.NamedExpr):
+            v_ = self.eval(e.value, env)
+            self.assign(e.target, v_, env)
+            return v_
         if isinstance(e, ast.Lambda):
             f = self.m.func_of_node.get(e)
             return Closure(f, env)
@@ -1131,8 +1135,8 @@ class Interp:
                 return getattr(o, attr)
             except AttributeError:
                 raise AbsRaise(f"AttributeError: {attr}")
-        if isinstance(o, str) and attr in ("join", "startswith", "endswith", "format", "replace", "split", "strip"):
-            return getattr(o, attr)
+        if isinstance(o, (str, bytes)) and not attr.startswith("_") and hasattr(o, attr):
+            return getattr(o, attr)  # string methods are pure
         import collections as _cl
         if isinstance(o, list) and attr == "sort":
             def _sort(key=None, reverse=False, _o=o):
